@@ -278,6 +278,9 @@ func (r *Run) Violation(key, what string, replay any) {
 	}
 	h := sha256.Sum256([]byte(key))
 	dir := filepath.Join(VerifDir(), "violations", r.ID)
+	if d := os.Getenv("VERIF_VIOLATIONS_DIR"); d != "" {
+		dir = filepath.Join(d, r.ID) // mutation self-tests keep their artefacts out of /verif
+	}
 	_ = os.MkdirAll(dir, 0o755)
 	path := filepath.Join(dir, hex.EncodeToString(h[:6])+".json")
 	body, err := json.MarshalIndent(map[string]any{"property": r.ID, "key": key, "what": what, "case": replay}, "", " ")
@@ -436,6 +439,9 @@ func (r *Run) Finish() {
 
 	if r.Replay == "" {
 		dir := filepath.Join(VerifDir(), "evidence")
+		if d := os.Getenv("VERIF_EVIDENCE_DIR"); d != "" {
+			dir = d // mutation self-tests must not overwrite the evidence of the unchanged tree
+		}
 		_ = os.MkdirAll(dir, 0o755)
 		b, err := json.MarshalIndent(evd, "", " ")
 		if err != nil {
